@@ -22,7 +22,13 @@ COMPONENTS = ["mp"]
 ASSUMPTIONS = ["quantifier of the property: configurations whose out-state computation draws no random numbers (a pre-computed and "
                "later discarded out-state would otherwise advance that handler's random stream)",
                "every in-flight computation delivers (fairness); OS-level behaviour of pipes/events/process reaping is exercised by the "
-               "real runs, the model abstracts it as FIFO channels and flags"]
+               "real runs, the model abstracts it as FIFO channels and flags",
+               "activator protocol (JF.MP.Protocol / hypotheses of JF.C20.stage_inv): created handlers are distinct and not running, the "
+               "scheduler returns a running handler, the committed handler is in its own trash list, trashed handlers stop running — "
+               "evaluated on every recorded leg by the trace validation (reply field proto=111)",
+               "JF.MP.Protocol.choose_perm: the scheduler's answer does not depend on the order in which the candidate times of one leg are "
+               "pushed, i.e. no two of them tie; the real schedulers break ties by push order, which is the known finding "
+               "C20:tie-of-candidate-times-pushed-in-one-leg (JF.C20.tie_breaks_refinement is the counterexample on the model)"]
 TRUSTED = ["harness/runtrace.py: per-handler RNG wrappers (class level, signature preserving), ScheduleShim replacing multiprocessing.connection"]
 
 CFG = runs.CFG
@@ -39,13 +45,56 @@ def soft_sphere(n, t_end, sched, power, sampling):
                           "SingleProcessMediator": {"scheduler": sched}}}
 
 
+def canon(tr):
+    """the legs of a trace with every handler named by (tagger, class, in-state identifiers it was started with) instead of by its
+    index: the event handlers of one tagger are interchangeable instances of one class, and which instance the activator pops from
+    its pool for which in-state is not reproducible from run to run for some configurations (hard_disk_dipoles_cells: two
+    *single-process* runs of the same seed already differ in the order in which ExcludedCellsTagger yields the in-states, a set
+    iteration order). Multisets (sorted lists) for created / candidate times / trashed, exact values for out-state and global state."""
+    hs = tr["meta"]["handlers"]
+    assigned, out = {}, []
+    for leg in tr["legs"]:
+        for h, ids in leg["created"]:
+            assigned[h] = (tuple(hs[h]), None if ids is None else tuple(tuple(i) for i in ids))
+
+        def key(h):
+            return assigned.get(h, (tuple(hs[h]), "never-started"))
+        out.append({"created": sorted((key(h) for h, _ in leg["created"]), key=repr),
+                    "times": sorted(((key(h), t) for h, t in leg["times"].items()), key=repr),
+                    "chosen": key(leg["chosen"]), "out": leg["out"], "post": leg["post"],
+                    "trashed": sorted((key(h) for h in leg["trashed"]), key=repr)})
+    return out
+
+
+def tie_at(cref, ctr, i):
+    """the two runs agree (canonically) on legs < i and on what is started in leg i with which candidate times, and commit different
+    handlers in leg i: is it because the two handlers have the same candidate event time and were pushed in the same leg (so that
+    only the order of the push_event calls separates them)?"""
+    if i is None or i >= len(cref) or i >= len(ctr):
+        return None
+    pend = {}
+    for j in range(i + 1):
+        for k, t in cref[j]["times"]:
+            pend[k] = (t, j)
+        if j < i:
+            for k in cref[j]["trashed"]:
+                pend.pop(k, None)
+    a, b = cref[i]["chosen"], ctr[i]["chosen"]
+    if a == b or a not in pend or b not in pend:
+        return None
+    (ta, ja), (tb, jb) = pend[a], pend[b]
+    if ta == tb and ja == jb:
+        return {"handlers": [a, b], "time": ta, "pushed_in_leg": ja}
+    return None
+
+
 def run(ctx):
     rng = ctx.rng
     ctx.rule = ("configurations x core counts x controlled schedules (seeded adversary for connection.wait); a case = one multi-process "
                 "run compared leg by leg with the single-process run; class = (configuration, cores, pre-computed out-states used?, "
                 "pre-computed out-states discarded?)")
     bases = []
-    for k in range(ctx.n(2, 6)):
+    for k in range(ctx.n(3, 5)):
         bases.append(soft_sphere(rng.randint(3, 7), rng.choice([2.0, 3.5]), rng.choice(["heap_scheduler", "list_scheduler"]),
                                  rng.choice([1.0, 2.0, 6.0]), rng.choice([0.11, 0.37])))
     bases.append({"ini": "config_files/hard_disk_dipoles/single_hard_disk_dipole.ini",
@@ -53,14 +102,27 @@ def run(ctx):
     if not ctx.quick:
         bases.append({"ini": "config_files/hard_disk_dipoles/hard_disk_dipoles_cells.ini",
                       "overrides": {"FinalTimeEndOfRunEventHandler": {"end_of_run_time": 3}}})
+    # corpus (every run, fixed seeds): sampling interval == end-of-run time, i.e. two candidate event times pushed in the same leg are
+    # equal; which of the two handlers the scheduler returns then depends on the order of the push_event calls = arrival order
+    # (known finding C20:tie-of-candidate-times-pushed-in-one-leg)
+    TIE = {"heap_scheduler": [0, 3, 4], "list_scheduler": [0, 1, 3]}
+    n_regular = len(bases)
+    for sched in TIE:
+        bases.append(soft_sphere(3, 2.0, sched, 2.0, 2.0))
     jobs, ref_of = [], {}
     for bi, b in enumerate(bases):
-        seed = ctx.seed * 100 + bi
+        tie = bi >= n_regular
+        seed = 1 if tie else ctx.seed * 100 + bi
         common = {**b, "seed": seed, "max_legs": ctx.n(1500, 6000), "per_handler_rng": True, "timeout": 300}
         ref_of[bi] = len(jobs)
         jobs.append({**common, "base": bi})
+        if tie:
+            for cores in (2, 3):
+                for s in TIE[b["overrides"]["SingleProcessMediator"]["scheduler"]]:
+                    jobs.append({**common, "base": bi, "mp": {"cores": cores, "schedule_seed": s}})
+            continue
         for cores in ([2, 3, 5] if ctx.quick else [2, 3, 4, 8]):
-            for s in range(ctx.n(2, 8)):
+            for s in range(ctx.n(3, 6)):
                 jobs.append({**common, "base": bi, "mp": {"cores": cores, "schedule_seed": ctx.seed * 1000 + 17 * s + cores}})
     trs = runs.run_jobs(ctx.root, jobs, workers=6)
     for tr in trs:
@@ -81,6 +143,8 @@ def run(ctx):
         if not tr["legs"] or str(tr["end"]).startswith(("exc", "build-exc")):
             ctx.fail("C20:multi-process-run-raises:" + str(tr["end"]), {**base, "exception": (tr.get("exception") or "")[-800:],
                                                                         "leg": len(tr["legs"])}, "the multi-process run raised")
+            if tr["legs"] and tr.get("meta", {}).get("handler_nargs"):
+                c20model.validate(ctx, tr, base)     # the legs recorded before the exception
             continue
         ws = tr.get("wait_states", {})
         used = ws.get("out_state_started", 0)
@@ -99,6 +163,20 @@ def run(ctx):
                     break
             if bad:
                 break
+        cref = ctr = None
+        if bad is not None:
+            # not identical handler index by handler index: compare with handlers named by what they were started with
+            cref, ctr = canon(ref), canon(tr)
+            bad = None
+            for i in range(n):
+                for k in ("created", "times", "chosen", "out", "post", "trashed"):
+                    if cref[i][k] != ctr[i][k]:
+                        bad = (i, k)
+                        break
+                if bad:
+                    break
+            if bad is None:
+                ctx.count("runs-equal-up-to-which-pool-instance-of-a-tagger-got-which-in-state")
         if bad is None and (len(ref["legs"]) != len(tr["legs"]) or ref["end"] != tr["end"]):
             bad = (n, "length/end")
         if bad is None:
@@ -109,12 +187,25 @@ def run(ctx):
         if bad is not None:
             i, k = bad
             meta = ref["meta"]
-            ctx.fail("C20:multi-process-run-diverges",
-                     {**base, "leg": i, "field": k,
-                      "single": None if i is None or i >= len(ref["legs"]) else {"handler": meta["handlers"][ref["legs"][i]["chosen"]], "times": ref["legs"][i]["times"]},
-                      "multi": None if i is None or i >= len(tr["legs"]) else {"handler": meta["handlers"][tr["legs"][i]["chosen"]], "times": tr["legs"][i]["times"]},
-                      "schedule_head": tr.get("schedule", [])[:40]},
-                     f"the multi-process run differs from the single-process run at leg {i} (field {k})")
+            tie = tie_at(cref, ctr, i) if k == "chosen" and cref is not None else None
+            if tie is not None:
+                ctx.count("runs-diverging-at-a-tie-of-candidate-times")
+                ctx.fail("C20:tie-of-candidate-times-pushed-in-one-leg:commit-depends-on-arrival-order",
+                         {**base, "leg": i, "tie": tie, "single_process_commits": cref[i]["chosen"],
+                          "multi_process_commits": ctr[i]["chosen"],
+                          "push_order_single": [meta["handlers"][h][0] for h in ref["legs"][tie["pushed_in_leg"]]["times"]],
+                          "push_order_multi": [meta["handlers"][h][0] for h in tr["legs"][tie["pushed_in_leg"]]["times"]],
+                          "same_out_state_and_global_state": cref[i]["out"] == ctr[i]["out"] and cref[i]["post"] == ctr[i]["post"],
+                          "samples_single": len(ref["writes"]), "samples_multi": len(tr["writes"])},
+                         "two handlers started in the same leg have the same candidate event time; the scheduler returns the one pushed "
+                         "first, and the push order of the multi-process mediator is the arrival order")
+            else:
+                ctx.fail("C20:multi-process-run-diverges",
+                         {**base, "leg": i, "field": k,
+                          "single": None if i is None or i >= len(ref["legs"]) else {"handler": meta["handlers"][ref["legs"][i]["chosen"]], "times": ref["legs"][i]["times"]},
+                          "multi": None if i is None or i >= len(tr["legs"]) else {"handler": meta["handlers"][tr["legs"][i]["chosen"]], "times": tr["legs"][i]["times"]},
+                          "schedule_head": tr.get("schedule", [])[:40]},
+                         f"the multi-process run differs from the single-process run at leg {i} (field {k})")
         if tr.get("children_alive_after_post_run"):
             ctx.fail("C20:worker-processes-left-behind", {**base, "alive": tr["children_alive_after_post_run"]},
                      "worker processes are still alive after post_run")
